@@ -10,9 +10,6 @@ and SP alignment are compared with the calling convention; then the callee
 "returns" (popping its arguments under callee cleanup) and at the end of the
 patch SP must be back.
 """
-import collections
-
-import gtirb
 from gtirb_rewriting import InsertionContext
 from gtirb_rewriting.abi import CallingConventionDesc
 from gtirb_rewriting.patches import CallPatch
